@@ -159,6 +159,7 @@ class Site:
     def __init__(self, pattern, dist):
         self.pattern = tuple(pattern)  # components: str, or ("#", size) for an index level
         self.dist = dist
+        self.switchy = None  # 'root' / 'nested': the site sits in a branch of a switch-like node
 
     @property
     def static_path(self):
@@ -729,6 +730,15 @@ class MaskedIterate(MaskedIterateFinal):
 # -- branching
 
 
+def _mark_switchy(node, sites):
+    tag = "root" if getattr(node, "is_root", False) else "nested"
+    for st in sites:
+        if st.switchy != "nested":
+            st.switchy = tag
+    return sites
+
+
+
 class Switch(Node):
     kind = "Switch"
 
@@ -762,7 +772,7 @@ class Switch(Node):
         out = []
         for b in self.branches:
             out.extend(b.sites(prefix))
-        return out
+        return _mark_switchy(self, out)
 
     def describe(self):
         return "switch(" + " | ".join(b.describe() for b in self.branches) + ")"
@@ -790,7 +800,7 @@ class OrElse(Node):
         return self.b.ref(env, path, tuple(ba))
 
     def sites(self, prefix=()):
-        return self.a.sites(prefix) + self.b.sites(prefix)
+        return _mark_switchy(self, self.a.sites(prefix) + self.b.sites(prefix))
 
     def describe(self):
         return f"or_else({self.a.describe()} , {self.b.describe()})"
@@ -821,10 +831,11 @@ class Mix(Node):
         return self.comps[k].ref(env, path + ("component_sample",), tuple(args[1 + k]))
 
     def sites(self, prefix=()):
-        out = [Site(prefix + ("mixture_component",), self._catnode)]
+        out = []
         for c in self.comps:
             out.extend(c.sites(prefix + ("component_sample",)))
-        return out
+        out = _mark_switchy(self, out)
+        return [Site(prefix + ("mixture_component",), self._catnode)] + out
 
     def describe(self):
         return "mix(" + " | ".join(c.describe() for c in self.comps) + ")"
